@@ -597,6 +597,25 @@ pub fn c15(c: &mut Ctx) {
     c.emit("x.from_cubes", "-", &["3".into(), fcubes(&bad)], call(|| Esop::from_cubes(3, bad.clone())).map(|r| fesop(&r)));
 }
 
+/// C02: the conversions from the two-level forms are part of the public API that produces truth tables
+pub fn to_lut_conversions(c: &mut Ctx) {
+    let k = if c.thorough { 12 } else { 4 };
+    for n in 0..=8usize {
+        for _ in 0..k {
+            let l = random_cube_list(c, n, 4);
+            let s = Sop::from_cubes(n, l.clone());
+            c.emit("s.to_lut", "-", &[fsop(&s)], call(|| Lut::from(&s)).map(|l| fl(&l)));
+            c.emit("s.to_lut.val", "-", &[fsop(&s)], call(|| Lut::from(s.clone())).map(|l| fl(&l)));
+            let e = Esop::from_cubes(n, l);
+            c.emit("x.to_lut", "-", &[fesop(&e)], call(|| Lut::from(&e)).map(|l| fl(&l)));
+            c.emit("x.to_lut.val", "-", &[fesop(&e)], call(|| Lut::from(e.clone())).map(|l| fl(&l)));
+            let o = random_soes(c, n, 4);
+            c.emit("o.to_lut", "-", &[fsoes(&o)], call(|| Lut::from(&o)).map(|l| fl(&l)));
+            c.emit("o.to_lut.val", "-", &[fsoes(&o)], call(|| Lut::from(o.clone())).map(|l| fl(&l)));
+        }
+    }
+}
+
 pub fn c16(c: &mut Ctx) {
     // cubes and ecubes over n <= 4 (5 in thorough), all
     for n in 0..=(if c.thorough { 5 } else { 4 }) {
@@ -605,6 +624,22 @@ pub fn c16(c: &mut Ctx) {
         }
         for x in all_ecubes(n).iter() {
             c.emit("e.display", "-", &[fecube(x)], call(|| x.to_string()).map(|s| fbytes(s.as_bytes())));
+        }
+    }
+    // distinct cubes print distinct text: conjunctions in each of the four operator forms (clashing operands included)
+    // against the canonical zero cube and against the by-value form
+    for n in 0..=3usize {
+        let cubes = all_cubes(n);
+        for x in cubes.iter() {
+            for y in cubes.iter() {
+                let rs = [call(|| *x & *y), call(|| x & *y), call(|| x & y), call(|| *x & y)];
+                for r in rs.iter().flatten() {
+                    for z in [Cube::zero(), *x & *y] {
+                        let rec = call(|| format!("{}|{}", fb(*r == z), fb(r.to_string() == z.to_string())));
+                        c.emit("c.display_distinct", "-", &[fcube(r), fcube(&z)], rec);
+                    }
+                }
+            }
         }
     }
     // all forms with <= 3 terms over n <= 3 (sampled for 3 terms unless thorough)
